@@ -382,6 +382,16 @@ def doCall (l : Line) : Option String := do
   let T := OdlModel.Gen.DTypes.tables
   some s!"ok {String.ofList (ds.map fun d => outChar (A.containsAllDtype T d))}"
 
+/-- `approxeq A=iv(..) B=iv(..) atol=<rat>`: answers `ok t|f|e` for `A.approx_equals(B, atol)`
+(A and B distinct objects). -/
+def doApproxEq (l : Line) : Option String := do
+  let A ← Term.pleaf? (← Term.parse (← l.get? "A"))
+  let B ← Term.pleaf? (← Term.parse (← l.get? "B"))
+  let atol ← l.rat? "atol"
+  match A, B with
+  | .interval lo hi, .interval lo' hi' => some s!"ok {outChar (intervalApproxEq atol lo hi lo' hi')}"
+  | _, _ => none
+
 def handle (l : Line) : Option String :=
   match l.op with
   | "eqall" => doEqAll l
@@ -391,6 +401,7 @@ def handle (l : Line) : Option String :=
   | "mem" => doMem l
   | "cset" => doCset l
   | "call" => doCall l
+  | "approxeq" => doApproxEq l
   | _ => none
 
 def main : IO Unit := driverLoop handle
